@@ -160,10 +160,13 @@ class UnitDefinition(PintParsedStatement, definitions.UnitDefinition):
             [converter, modifiers] = value.split(";", 1)
 
             try:
-                modifiers = {
-                    key.strip(): config.to_number(value)
-                    for key, value in (part.split(":") for part in modifiers.split(";"))
-                }
+                parts = [part.split(":") for part in modifiers.split(";")]
+                for part in parts:
+                    if len(part) == 2 and not part[1].strip():
+                        return common.DefinitionSyntaxError(
+                            f"Unit definition ('{name}') has no value for the modifier '{part[0].strip()}'"
+                        )
+                modifiers = {key.strip(): config.to_number(value) for key, value in parts}
             except definitions.NotNumeric as ex:
                 return common.DefinitionSyntaxError(
                     f"Unit definition ('{name}') must contain only numbers in modifier, not {ex.value}"
